@@ -36,5 +36,10 @@ for wt in args:
             'checks_analysis_error': sorted(k for k, v in e.get('detected_by', {}).items() if v['rc'] == 2),
             'first_findings': {k: v['findings'][:1] for k, v in e.get('detected_by', {}).items()},
         })
+        fp = os.environ.get('FIRST_PASS_DIR')
+        if fp and os.path.exists(os.path.join(fp, prop, m + '.json')):
+            f1 = json.load(open(os.path.join(fp, prop, m + '.json')))
+            meta['first_pass_before_strengthening'] = {'own_property_rc': f1.get('own_property_rc'),
+                                                       'checks_reporting_violation': sorted(k for k, v in f1.get('detected_by', {}).items() if v['rc'] == 1)}
         json.dump(meta, open(os.path.join(out, 'meta.json'), 'w'), indent=1)
         print('kept', prop, m, meta['checks_reporting_violation'])
